@@ -72,7 +72,7 @@ class C16(Check):
                 op = draw(st.sampled_from(LIST_OPS if kind == "list" else SET_OPS))
                 args = draw(st.lists(st.sampled_from(by_cls[rng]), min_size=0 if op in ("assign", "iadd", "ior", "extend", "update") else 1,
                                      max_size=3))
-                ops.append({"o": o, "f": f, "op": op, "args": args, "idx": draw(st.integers(0, 5))})
+                ops.append({"o": o, "f": f, "op": op, "args": args, "idx": draw(st.integers(0, 7))})
             return {"pop": pop, "ops": ops}
 
         return ir()
@@ -151,7 +151,8 @@ class C16(Check):
                 elif name == "setitem":
                     real = list(field_now)
                     pos = idx % len(real)
-                    field_now[pos] = objs[0]
+                    # every second item assignment addresses the position from the end (down to -len)
+                    field_now[pos - len(real) if op.get("idx", 0) % 2 else pos] = objs[0]
                     model[(o, f)] = _setitem_like(real, cur, pos, args[0], inst)
                 elif name == "add":
                     field_now.add(objs[0])
